@@ -88,7 +88,7 @@ def run(run):
                         break
         # the group law does not depend on the grid being even: the same programs on odd grids (code against code)
         n_odd = 0
-        for N in (3, 5, 7):
+        for N in (3, 5, 7, 26, 34, 96):                # ... nor on its size being FFT-friendly (26 = 2 x 13, 34 = 2 x 17) or a multiple of 64
             U = rng.standard_normal((N, N)) + 1j * rng.standard_normal((N, N))
             for k, c in enumerate([c for c in progs if c["N"] == progs[0]["N"]][::7]):
                 phys = PI.PHYS[k % len(PI.PHYS)]
@@ -97,7 +97,7 @@ def run(run):
                 want = U if c["total"] == 0 else np.asarray(op.angularSpectrum(U.copy(), lam, d1, d1, c["total"] * z0))
                 n_odd += 1
                 if got.shape != U.shape or not np.allclose(got, want, rtol=0, atol=1e-9 * np.abs(U).max() * max(1, len(c["prog"]))):
-                    run.violation("angularSpectrum:group-law:odd-grid", dict(N=N, prog=c["prog"], total=c["total"], phys=phys,
+                    run.violation("angularSpectrum:group-law:" + ("odd-grid" if N % 2 else "grid-size-with-large-prime-factor" if N in (26, 34) else "large-grid"), dict(N=N, prog=c["prog"], total=c["total"], phys=phys,
                                                                              err=float(np.abs(got - want).max())), dict(c, N=N))
                     break
         n_prog += n_odd
